@@ -408,6 +408,15 @@ theorem C09_discovery (size : Nat) (hsize : 3 ≤ size) (es : List Entry) (hok :
     simp only [List.map_cons, List.filterMap_cons, he, this]
 
 open Lines in
+/-- From the bytes of the symbol listing to the tests executed: for a library that defines at least one test, whatever the
+lengths of its lines, the tests executed are exactly the listed tests that match the pattern (all without one), each once. -/
+theorem C09_from_listing (size : Nat) (hsize : 3 ≤ size) (es : List Entry) (hok : ∀ e ∈ es, e.ok)
+    (hne : es.filterMap Entry.item ≠ []) (pat : Option Str) (fails : Item → Bool) :
+    (runLibrary (discover size (listing es)) pat fails).executed.Perm (selected pat (es.filterMap Entry.item)) := by
+  rw [C09_discovery size hsize es hok]
+  exact C09_select _ hne pat fails
+
+open Lines in
 example : discover 20 (listing [.other "0000000000001000 T _init".toList,
       .test "0000000000004010".toList ⟨"Ctx".toList, "a_rather_long_test_name".toList⟩,
       .test "0000000000004018".toList ⟨"default".toList, "b".toList⟩])
